@@ -17,8 +17,8 @@ type SeatOp struct {
 }
 
 func (o SeatOp) String() string {
-	if o.Kind == 'N' {
-		return "N"
+	if o.Kind == 'N' || o.Kind == 'X' || o.Kind == 'Z' {
+		return string(o.Kind)
 	}
 	return fmt.Sprintf("%c%d", o.Kind, o.Seat)
 }
@@ -101,6 +101,7 @@ type seatRun struct {
 	watchSeat         int
 	watchPassed       bool
 	justArmed         bool
+	lostDealer        int    // dealer seat a restore failed to bring back (-1: none)
 	touched           []int  // seats touched by join/leave/reserve/sit-in since positions were assigned
 	closedAfterAssign []bool // seats the last assignment left inactive
 	engine            bool   // integration step: hand the positions to the engine
@@ -166,9 +167,35 @@ func (s *seatRun) apply(op SeatOp) {
 	var err error
 	var sid int
 	prevD := dealerID(m)
+	if prevD < 0 && s.lostDealer >= 0 {
+		prevD = s.lostDealer // a restore dropped the dealer: the button still has to move on from where it was
+	}
 	func() {
 		defer func() { pan = recover() }()
 		switch op.Kind {
+		case 'X':
+			// snapshot and restore through the public state document (a table brought back after a restart)
+			st := &sm.SeatManagerState{Max: s.max, Seats: map[int]*sm.Seat{}, Dealer: -1, SB: -1, BB: -1}
+			for _, x := range m.GetSeats() {
+				c := *x
+				st.Seats[x.ID] = &c
+			}
+			if d := m.Dealer(); d != nil {
+				st.Dealer = d.ID
+			}
+			if d := m.SmallBlind(); d != nil {
+				st.SB = d.ID
+			}
+			if d := m.BigBlind(); d != nil {
+				st.BB = d.ID
+			}
+			err = m.ApplyStates(st)
+			if st.Dealer >= 0 && m.Dealer() == nil {
+				s.lostDealer = st.Dealer
+			}
+		case 'Z':
+			m.Reset()
+			s.joined = 0
 		case 'J':
 			s.pid++
 			sid, err = m.Join(op.Seat, s.playerInfo())
@@ -226,7 +253,14 @@ func (s *seatRun) apply(op SeatOp) {
 		s.watchSeat = -1
 	}
 	s.justArmed = false
-	if op.Kind != 'N' {
+	if op.Kind == 'X' || op.Kind == 'Z' {
+		s.watchSeat = -1
+		s.touched = append(s.touched, -1)
+		s.rep.Inc("class_restore_or_reset")
+		if op.Kind == 'Z' {
+			s.emptyAtAssign, s.closedAfterAssign = nil, nil
+		}
+	} else if op.Kind != 'N' {
 		t := op.Seat
 		if op.Kind == 'J' && op.Seat == -1 {
 			t = sid
@@ -533,6 +567,7 @@ func (s *seatRun) onNext(pre, post []seatView, prevD int, err error) {
 				}
 			}
 		}
+		s.lostDealer = -1
 		s.touched = s.touched[:0]
 		s.closedAfterAssign = make([]bool, s.max)
 		for i, v := range post {
@@ -643,6 +678,9 @@ func genSeatHistory(r *rand.Rand, max int) []SeatOp {
 		default:
 			ops = append(ops, SeatOp{'N', 0})
 		}
+		if r.Intn(60) == 0 {
+			ops = append(ops, SeatOp{[]byte{'X', 'X', 'Z'}[r.Intn(3)], 0})
+		}
 	}
 	return ops
 }
@@ -660,7 +698,7 @@ func parseSeatHistory(text string) []SeatOp {
 }
 
 func newSeatRun(prop string, props []string, max int, rep *Report, seed int64, idx int, r *rand.Rand) *seatRun {
-	s := &seatRun{prop: prop, props: map[string]bool{}, max: max, m: sm.NewSeatManager(max), rep: rep, seed: seed, idx: idx, watchSeat: -1, r: r}
+	s := &seatRun{prop: prop, props: map[string]bool{}, max: max, m: sm.NewSeatManager(max), rep: rep, seed: seed, idx: idx, watchSeat: -1, lostDealer: -1, r: r}
 	for _, p := range props {
 		s.props[p] = true
 	}
@@ -732,5 +770,64 @@ func runJoinBetween(s *seatRun, r *rand.Rand) {
 		if s.m.GetPlayableSeatCount() < 2 {
 			return
 		}
+	}
+}
+
+// targeted scenario: a table that collapses to (about) two playing seats between two hands while other
+// players are waiting - on closed seats, on open seats, sat in or not. The second Next() has to choose
+// heads-up or three-handed positions after letting the waiting players in.
+func runCollapse(s *seatRun, r *rand.Rand) {
+	max := s.max
+	s.rep.Inc("histories")
+	s.rep.Inc("collapse_scenarios")
+	perm := r.Perm(max)
+	k := 3 + r.Intn(max-2)
+	if k > max {
+		k = max
+	}
+	for i, seat := range perm {
+		switch {
+		case i < k:
+			s.apply(SeatOp{'J', seat})
+			s.apply(SeatOp{'S', seat})
+		case r.Intn(3) == 0:
+			s.apply(SeatOp{'J', seat}) // seated but sitting out
+		}
+	}
+	for round := 0; round < 1+r.Intn(3) && !s.failed; round++ {
+		s.apply(SeatOp{'N', 0})
+		if s.failed || dealerID(s.m) < 0 {
+			return
+		}
+		seats := viewSeats(s.m)
+		// newcomers and sit-ins while the hand is on
+		for _, seat := range r.Perm(max) {
+			v := seats[seat]
+			switch {
+			case !v.occ && r.Intn(2) == 0:
+				s.apply(SeatOp{'J', seat})
+				if r.Intn(3) != 0 {
+					s.apply(SeatOp{'S', seat})
+				}
+			case v.occ && v.res && r.Intn(2) == 0:
+				s.apply(SeatOp{'S', seat})
+			}
+		}
+		// the players of this hand leave until about two are left
+		playing := playableOf(seats)
+		r.Shuffle(len(playing), func(i, j int) { playing[i], playing[j] = playing[j], playing[i] })
+		keep := 1 + r.Intn(2)
+		if r.Intn(4) == 0 {
+			keep = 0
+		}
+		for i := keep; i < len(playing); i++ {
+			s.apply(SeatOp{'L', playing[i]})
+		}
+	}
+	if !s.failed {
+		s.apply(SeatOp{'N', 0})
+	}
+	if !s.failed && r.Intn(2) == 0 {
+		s.apply(SeatOp{'N', 0})
 	}
 }
